@@ -72,3 +72,9 @@ Inductive tlscfg_expr :=
 | TcClone (assigned : list string)  (* <origin>.Clone() with exactly these fields assigned afterwards *)
 | TcUnknown (text : string).        (* anything else, e.g. a fresh &tls.Config{...} literal *)
 Record tls_use := mk_tls_use { tu_file : string; tu_func : string; tu_consumer : string; tu_cfg : tlscfg_expr }.
+
+(* control-flow shape of pkg/util/net/tls.go CheckAndEnableTLSServerConnWithTimeout *)
+Inductive sniff_shape :=
+| SsOk             (* before the switch the only exit is "if err != nil { return }" (named results: out = nil);
+                      the switch's default clause starts with "if <tlsOnly parameter> { err = ...; return }" *)
+| SsUnknown (text : string).
